@@ -16,7 +16,9 @@ package main
 // l = a forwarded request is executed by the leader but the answer is an error (lost reply), x (first letter only,
 // call issued at the leader) = the caller hands the leadership over between looking up the leader and calling Raft:
 // its Raft call fails with ErrNotLeader, later attempts are forwarded to the new leader (<lead> names the new
-// leader then). Attempts beyond the plan are healthy. lead = who led when the step was issued; res = ok|err; fwd = forwarded requests the
+// leader then), p (the whole plan, call issued at the leader, every server running) = partition: the leader is cut
+// off from all other peers (connection gaters, connections closed) right before the call; the others elect <lead>;
+// then the network is healed. Attempts beyond the plan are healthy. lead = who led when the step was issued; res = ok|err; fwd = forwarded requests the
 // leader's endpoint received during the call; loc = Raft calls (raftWrapper.AddPeer / RemovePeer) made by the
 // caller itself; has = all|none|mixed: which of the other running peers report j after the step (everybody
 // caught up). Peer 3 is a server that never runs (only its identity is added), 4 is never added, 9 is the
@@ -29,6 +31,11 @@ import (
 	"fmt"
 	"path/filepath"
 	"runtime"
+
+	"github.com/libp2p/go-libp2p-core/control"
+	"github.com/libp2p/go-libp2p-core/network"
+	ma "github.com/multiformats/go-multiaddr"
+
 	"sort"
 	"strconv"
 	"strings"
@@ -114,6 +121,93 @@ func countedCtx() (context.Context, func() int) {
 	}
 }
 
+// blockGater refuses connections from / to the peers on its list: how a partition is made.
+type blockGater struct {
+	mu      sync.RWMutex
+	blocked map[peer.ID]bool
+}
+
+func (g *blockGater) set(ps ...peer.ID) {
+	g.mu.Lock()
+	g.blocked = map[peer.ID]bool{}
+	for _, p := range ps {
+		g.blocked[p] = true
+	}
+	g.mu.Unlock()
+}
+func (g *blockGater) ok(p peer.ID) bool {
+	g.mu.RLock()
+	defer g.mu.RUnlock()
+	return !g.blocked[p]
+}
+func (g *blockGater) InterceptPeerDial(p peer.ID) bool                 { return g.ok(p) }
+func (g *blockGater) InterceptAddrDial(p peer.ID, _ ma.Multiaddr) bool { return g.ok(p) }
+func (g *blockGater) InterceptAccept(network.ConnMultiaddrs) bool      { return true }
+func (g *blockGater) InterceptSecured(_ network.Direction, p peer.ID, _ network.ConnMultiaddrs) bool {
+	return g.ok(p)
+}
+func (g *blockGater) InterceptUpgraded(network.Conn) (bool, control.DisconnectReason) { return true, 0 }
+
+// isolate cuts n off from every other host; heal undoes it.
+func (w *cworld) isolate(n *cnode) {
+	var others []peer.ID
+	for _, o := range w.nodes {
+		if o != n && o.h != nil {
+			others = append(others, o.id)
+			o.gater.set(n.id)
+		}
+	}
+	n.gater.set(others...)
+	for _, p := range others {
+		n.h.Network().ClosePeer(p)
+	}
+}
+
+func (w *cworld) heal() {
+	for _, o := range w.nodes {
+		if o.gater != nil {
+			o.gater.set()
+		}
+	}
+	w.refreshAddrs()
+	for _, a := range w.nodes {
+		for _, b := range w.nodes {
+			if a != b && a.h != nil && b.h != nil && a.up && b.up {
+				a.h.Connect(context.Background(), peer.AddrInfo{ID: b.id, Addrs: b.h.Addrs()})
+			}
+		}
+	}
+}
+
+// electedWithout waits until the running peers other than n agree on a leader other than n.
+func (w *cworld) electedWithout(n *cnode, max time.Duration) *cnode {
+	deadline := time.Now().Add(max)
+	for time.Now().Before(deadline) {
+		var lead string
+		agree := true
+		for _, o := range w.nodes {
+			if !o.up || o == n {
+				continue
+			}
+			info, err := o.cc.VerifRaftInfo()
+			if err != nil || info.Leader == "" || info.Leader == peer.Encode(n.id) || (lead != "" && lead != info.Leader) {
+				agree = false
+				break
+			}
+			lead = info.Leader
+		}
+		if agree && lead != "" {
+			for _, o := range w.nodes {
+				if peer.Encode(o.id) == lead && o.up {
+					return o
+				}
+			}
+		}
+		time.Sleep(50 * time.Millisecond)
+	}
+	return nil
+}
+
 func (w *cworld) pid(j int) (peer.ID, bool) {
 	if j == nullPeer {
 		return peer.ID(""), true
@@ -179,6 +273,9 @@ func validPlan(p string) bool {
 	}
 	if len(p) == 0 || len(p) > 12 {
 		return false
+	}
+	if p == "p" {
+		return true
 	}
 	for i, c := range p {
 		if c != 'f' && c != 'l' && !(c == 'x' && i == 0) {
@@ -248,8 +345,25 @@ func (w *cworld) execFault(op string) (string, int, bool) {
 	at := w.resolve(f[1], origLead, l)
 	plan := f[3]
 	xfer := strings.HasPrefix(plan, "x")
-	if xfer {
+	part := plan == "p"
+	if xfer || part {
 		at = l // only the leader can lose the leadership in mid-call
+	}
+	if part {
+		// every server of the configuration must be running (the others need a quorum among themselves)
+		info, e := l.cc.VerifRaftInfo()
+		nup := 0
+		for _, n := range w.nodes {
+			if n.up {
+				nup++
+			}
+		}
+		if e != nil || len(info.Servers) != nup || nup < 3 || j == nullPeer || j == l.idx {
+			return "", 0, true
+		}
+		if f[0] == "frm" && (j < 0 || j >= len(w.nodes) || !w.nodes[j].up) {
+			return "", 0, true
+		}
 	}
 	if at == nil || !at.up {
 		return "", 0, true
@@ -275,13 +389,26 @@ func (w *cworld) execFault(op string) (string, int, bool) {
 		fl.plan = plan[1:] // what the new leader's endpoint does to the forwards that follow
 	}
 	fl.mu.Unlock()
-	if at == l && j != nullPeer && !xfer {
+	if part {
+		fl.plan = ""
+	}
+	if at == l && j != nullPeer && !xfer && !part {
 		plan = "-" // nothing is forwarded: no fault is injected
 	}
 	ctx, done := countedCtx()
 	var err error
 	var newLead *cnode
 	xferOK := true
+	healed := make(chan struct{})
+	if part {
+		w.isolate(l)
+		go func() {
+			// keep the partition until the others have elected; then heal
+			newLead = w.electedWithout(l, 30*time.Second)
+			w.heal()
+			close(healed)
+		}()
+	}
 	ok := within(opTimeout, func() {
 		if xfer {
 			armedMu.Lock()
@@ -313,7 +440,21 @@ func (w *cworld) execFault(op string) (string, int, bool) {
 	fl.plan = ""
 	fl.mu.Unlock()
 	if !ok {
+		if part {
+			<-healed
+		}
 		return "", 0, false
+	}
+	if part {
+		<-healed
+		if newLead == nil {
+			return "", 0, false // nobody was elected in time
+		}
+		nl, ok := w.converge(45 * time.Second)
+		if !ok {
+			return "", 0, false
+		}
+		return fmt.Sprintf("%s@%d@%d@%s@l%d@%s@%d@%d", f[0], at.idx, j, plan, nl.idx, resTok(err), seen, loc), j, true
 	}
 	if xfer {
 		if !xferOK || newLead == nil || w.leader() != newLead {
@@ -508,6 +649,15 @@ func genFaultScript(r *common.Rng, k int, tier string) cscript {
 		return "F"
 	}
 	ghost := false
+	if len(s.init) == 3 && k%4 == 1 {
+		// the leader is partitioned away right before it is asked to add / remove a peer
+		if r.Bool() {
+			s.ops = append(s.ops, "fadd@L@3@p")
+			ghost = true // possibly
+		} else {
+			s.ops = append(s.ops, "frmrole@L@F@p")
+		}
+	}
 	steps := 6
 	if tier == "thorough" {
 		steps = 9
